@@ -435,42 +435,30 @@ impl AddAssign<Duration> for Epoch {
     }
 }
 
-/// Equality only checks the duration since J1900 match in TAI, because this is how all of the epochs are referenced.
+/// Equality is chronological: two epochs are equal when they denote the same instant,
+/// in whichever time scales they were created.
 impl PartialEq for Epoch {
     fn eq(&self, other: &Self) -> bool {
-        if self.time_scale == other.time_scale {
-            self.duration == other.duration
-        } else {
-            // If one of the two time scales does not include leap seconds,
-            // we always convert the time scale with leap seconds into the
-            // time scale that does NOT have leap seconds.
-            if self.time_scale.uses_leap_seconds() != other.time_scale.uses_leap_seconds() {
-                if self.time_scale.uses_leap_seconds() {
-                    self.to_time_scale(other.time_scale).duration == other.duration
-                } else {
-                    self.duration == other.to_time_scale(self.time_scale).duration
-                }
-            } else {
-                // Otherwise it does not matter
-                self.duration == other.to_time_scale(self.time_scale).duration
-            }
-        }
+        self.cmp(other) == Ordering::Equal
     }
 }
 
 impl PartialOrd for Epoch {
     fn partial_cmp(&self, other: &Self) -> Option<Ordering> {
-        Some(
-            self.duration
-                .cmp(&other.to_time_scale(self.time_scale).duration),
-        )
+        Some(self.cmp(other))
     }
 }
 
 impl Ord for Epoch {
     fn cmp(&self, other: &Self) -> Ordering {
-        self.duration
-            .cmp(&other.to_time_scale(self.time_scale).duration)
+        if self.time_scale == other.time_scale {
+            // The elapsed time in one and the same time scale orders the instants.
+            self.duration.cmp(&other.duration)
+        } else {
+            // Compare both on the TAI axis: converting only one operand into the scale of the
+            // other is not injective for UTC and would make the answer depend on the operand order.
+            self.to_tai_duration().cmp(&other.to_tai_duration())
+        }
     }
 }
 
